@@ -310,18 +310,18 @@ var targeted = []func(g *hist.Gen) txgen.Tx{
 
 // drawCheck draws one transaction to be checked at boundary `at` (k = number of the block's
 // transactions already delivered; -1 before BeginBlock).
-func drawCheck(rt *rapid.T, h *run.H, g *hist.Gen, own []txgen.Tx, at string, k int) hist.Step {
+func drawCheck(rt *rapid.T, u *hist.U, g *hist.Gen, own []txgen.Tx, at string, k int) txgen.Tx {
 	var tx txgen.Tx
-	src := rapid.IntRange(0, 19).Draw(rt, "src")
+	src := u.N(20, "src")
 	switch {
 	case src < 6 && k+1 < len(own) && at != "after-commit": // one of the block's own future transactions
-		tx = own[rapid.IntRange(k+1, len(own)-1).Draw(rt, "own")]
+		tx = own[u.Range(k+1, len(own)-1, "own")]
 	case src < 10:
 		tx = g.Draw()
 	case src < 19:
-		tx = targeted[rapid.IntRange(0, len(targeted)-1).Draw(rt, "targeted")](g)
+		tx = targeted[u.N(len(targeted), "targeted")](g)
 	default:
-		switch rapid.IntRange(0, 2).Draw(rt, "invalid") {
+		switch u.N(3, "invalid") {
 		case 0:
 			tx = txgen.Tx{Bytes: []byte("not a transaction"), Kind: "GARBAGE"}
 		case 1:
@@ -334,14 +334,7 @@ func drawCheck(rt *rapid.T, h *run.H, g *hist.Gen, own []txgen.Tx, at string, k 
 			tx = txgen.Tx{Bytes: b, Kind: "BITFLIP"}
 		}
 	}
-	if (at == "before-begin" || at == "after-commit") && isGovKind(tx.Kind) && h.Excluded(exclGov) {
-		tx = g.Send()
-	}
-	return hist.Step{Kind: "check", At: at, Tx: tx.Bytes, TxKind: tx.Kind, Replica: 1}
-}
-
-func nChecks(rt *rapid.T, label string) int {
-	return rapid.SampledFrom([]int{0, 0, 0, 1, 1, 2, 3}).Draw(rt, label)
+	return tx
 }
 
 func govID(s string) governance.ProposalID { return governance.ProposalID(s) }
@@ -355,17 +348,20 @@ func TestC07(t *testing.T) {
 	maxBlocks := h.Scale(22, 40)
 	rapid.Check(t, func(rt *rapid.T) {
 		p := hist.GenParams(rt, fmt.Sprint(h.Seed))
-		prof := rapid.SampledFrom(profileWheel).Draw(rt, "profile")
-		scripted := (prof == "governance") && rapid.Bool().Draw(rt, "scripted")
-		role := hist.Roles(p, 2)[rapid.IntRange(0, 1).Draw(rt, "role")]
+		u := hist.NewU(rt)
+		prof := profileWheel[u.N(len(profileWheel), "profile")]
+		scripted := (prof == "governance") && u.N(2, "scripted") == 0
+		role := hist.Roles(p, 2)[u.N(2, "role")]
 		tr := &hist.Trace{Params: p, Roles: []sim.Role{role}, Profile: prof}
 		if scripted {
 			tr.Profile = prof + "+script"
 		}
-		nb := rapid.IntRange(3, maxBlocks).Draw(rt, "nblocks")
+		nb := u.Range(3, maxBlocks, "nblocks")
 		var g *hist.Gen
 		blocks := 0
-		var pendingScript []txgen.Tx
+		var script [][]txgen.Tx
+		// generator-side view of the current check-state object (see execute): does it hold a governance check?
+		periodGov := false
 		out, st := execute(h, tr, func(w *hist.World) ([]hist.Step, []txgen.Tx, bool) {
 			if g == nil {
 				g = &hist.Gen{W: w, T: rt, Hostile: 3, Strange: 8, Kinds: hist.Profiles[prof], Excl: h.Excluded, Seen: map[string]int{}, TagsN: map[string]int{}}
@@ -376,33 +372,53 @@ func TestC07(t *testing.T) {
 			blocks++
 			txs := g.DrawTxs(4)
 			if scripted {
-				if len(pendingScript) == 0 && rapid.IntRange(0, 3).Draw(rt, "newscript") == 0 {
-					pendingScript = scriptProposal(rt, g)
+				if len(script) == 0 && u.N(3, "newscript") == 0 {
+					script = scriptProposal(rt, u, g)
 				}
-				if len(pendingScript) > 0 {
-					n := rapid.IntRange(1, len(pendingScript)).Draw(rt, "scriptn")
-					at := rapid.IntRange(0, len(txs)).Draw(rt, "scriptat")
-					ins := append([]txgen.Tx{}, pendingScript[:n]...)
-					pendingScript = pendingScript[n:]
-					txs = append(txs[:at], append(ins, txs[at:]...)...)
+				if len(script) > 0 && u.N(3, "scriptwait") != 0 {
+					stage := script[0]
+					n := len(stage)
+					if len(script) == 1 { // the votes may be spread over several blocks
+						n = u.Range(1, len(stage), "scriptn")
+					}
+					at := u.N(len(txs)+1, "scriptat")
+					ins := append([]txgen.Tx{}, stage[:n]...)
+					if n == len(stage) {
+						script = script[1:]
+					} else {
+						script[0] = stage[n:]
+					}
+					txs = append(txs[:at:at], append(ins, txs[at:]...)...)
 				}
 			}
 			spec := g.DrawEnv(txs)
 			var steps []hist.Step
-			add := func(at string, k int) {
-				n := nChecks(rt, "n@"+strings.SplitN(at, ":", 2)[0])
-				for i := 0; i < n; i++ {
-					steps = append(steps, drawCheck(rt, h, g, txs, at, k))
+			excl := func(kind string) bool { return isGovKind(kind) && h.Excluded(exclGov) }
+			push := func(at string, tx txgen.Tx) {
+				if isGovKind(tx.Kind) {
+					periodGov = true
 				}
+				steps = append(steps, hist.Step{Kind: "check", At: at, Tx: tx.Bytes, TxKind: tx.Kind, Replica: 1})
+			}
+			add := func(at string, k int) int {
+				n := []int{0, 0, 0, 1, 1, 2, 3}[u.N(7, "n@"+strings.SplitN(at, ":", 2)[0])]
+				for i := 0; i < n; i++ {
+					tx := drawCheck(rt, u, g, txs, at, k)
+					// known finding: BeginBlock must not run while the stores point at a check state holding governance writes
+					if (at == "before-begin" || at == "after-commit") && excl(tx.Kind) {
+						tx = g.Send()
+					}
+					push(at, tx)
+				}
+				return n
 			}
 			// the realistic mempool flow: sometimes every transaction of the block is checked before it
-			if len(txs) > 0 && rapid.IntRange(0, 4).Draw(rt, "mempoolflow") == 0 {
+			if len(txs) > 0 && u.N(5, "mempoolflow") == 0 {
 				for _, tx := range txs {
-					t2 := tx
-					if isGovKind(t2.Kind) && h.Excluded(exclGov) {
+					if excl(tx.Kind) {
 						continue
 					}
-					steps = append(steps, hist.Step{Kind: "check", At: "before-begin", Tx: t2.Bytes, TxKind: t2.Kind, Replica: 1})
+					push("before-begin", tx)
 				}
 			}
 			add("before-begin", -1)
@@ -410,8 +426,13 @@ func TestC07(t *testing.T) {
 			for k := range txs {
 				add(fmt.Sprintf("after-tx:%d", k), k)
 			}
-			add("after-end", len(txs))
-			add("after-commit", len(txs))
+			nEnd := add("after-end", len(txs))
+			staleRisk := nEnd > 0 && periodGov // stores stay aimed at this period's check state across Commit
+			periodGov = false                  // Commit: fresh check state object
+			nCommit := add("after-commit", len(txs))
+			if staleRisk && nCommit == 0 && h.Excluded(exclGov) {
+				push("after-commit", g.Send()) // benign check that aims the stores at the fresh check state
+			}
 			steps = append(steps, hist.BlockStep(spec, txs))
 			return steps, txs, true
 		})
@@ -438,8 +459,10 @@ func TestC07(t *testing.T) {
 	})
 }
 
-// scriptProposal returns create, fund-to-goal and one yes vote per genesis validator for a fresh proposal.
-func scriptProposal(rt *rapid.T, g *hist.Gen) []txgen.Tx {
+// scriptProposal returns the stages of a proposal life cycle: [create, fund to goal] and one
+// vote per genesis validator (votes are counted on committed vote records, so they must come in
+// a later block than the funding that opens the vote).
+func scriptProposal(rt *rapid.T, u *hist.U, g *hist.Gen) [][]txgen.Tx {
 	w := g.W
 	create := g.ProposalCreate()
 	parts := strings.Split(create.Note, ":")
@@ -447,16 +470,16 @@ func scriptProposal(rt *rapid.T, g *hist.Gen) []txgen.Tx {
 		return nil
 	}
 	id := parts[0]
-	out := []txgen.Tx{create}
-	u := w.G.U.Users[rapid.IntRange(0, len(w.G.U.Users)-1).Draw(rt, "funder")]
+	fu := w.G.U.Users[u.N(len(w.G.U.Users), "funder")]
 	goal := hist.ParseAmt([]byte(`"` + w.P.PropFundingGoal + `"`))
-	out = append(out, txgen.ProposalFund(u, govID(id), u.Addr, txgen.Amt("OLT", goal), w.Fee, w.Memo()))
+	fund := txgen.ProposalFund(fu, govID(id), fu.Addr, txgen.Amt("OLT", goal), w.Fee, w.Memo())
+	var votes []txgen.Tx
 	for i := range w.P.ValPower {
 		v := w.G.U.Vals[i]
-		op := rapid.SampledFrom([]int{1, 1, 1, 1, 2}).Draw(rt, "opinion")
-		out = append(out, txgen.ProposalVote(govID(id), v.Stake.Addr, v.Key.Addr, govOpinion(op), w.Fee, w.Memo(), v.Stake, v.Key))
+		op := []int{1, 1, 1, 1, 2}[u.N(5, "opinion")]
+		votes = append(votes, txgen.ProposalVote(govID(id), v.Stake.Addr, v.Key.Addr, govOpinion(op), w.Fee, w.Memo(), v.Stake, v.Key))
 	}
-	return out
+	return [][]txgen.Tx{{create, fund}, votes}
 }
 
 func TestReplay(t *testing.T) {
